@@ -65,8 +65,8 @@ def run(ctx):
     # happened within one keep period of the first line written to that connection; on a machine too slow for that
     # the scenario is not judged (assumption A1 broken by the harness, not by the relay)
     for sid, f in finals.items():
-        if byid[sid]["name"] == "keepsafe-old-generation" and f.get("redo_span_ms", 0) > destlib.KEEPSAFE_MS:
-            ctx.note("scenario keepsafe-old-generation not judged: redo collection came %d ms after the first write (keep period %d ms)"
+        if byid[sid]["name"].startswith("keepsafe-") and f.get("redo_span_ms", 0) > destlib.KEEPSAFE_MS:
+            ctx.note("scenario " + byid[sid]["name"] + " not judged: redo collection came %d ms after the first write (keep period %d ms)"
                      % (f["redo_span_ms"], destlib.KEEPSAFE_MS))
             for e in events:
                 if e.get("scn") == sid and e["ev"] == "final":
